@@ -99,6 +99,18 @@ var descHolders = []descHolder{
 	{"var o=Object.prototype;", "toString", true},
 	{"var o=Array.prototype;", "length", true},
 	{"var o=Object.freeze({x:1});", "x", false},
+	{"var o=hgo('go_slice');", "0", false},
+	{"var o=hgo('go_slice');", "length", false},
+	{"var o=hgo('go_slice');", "7", false},
+	{"var o=hgo('go_map');", "a", false},
+	{"var o=hgo('go_map');", "zz", false},
+	{"var o=hgo('go_struct');", "X", false},
+	{"var o=hgo('go_ptr_struct');", "Y", false},
+	{"var o=hgo('go_ptr_struct');", "nosuch", false},
+	{"var o=hgo('go_array');", "1", false},
+	{"var o=hgo('go_array');", "length", false},
+	{"var o=hgo('go_func');", "length", false},
+	{"var o=hgo('go_map_int');", "1", false},
 	{"var o=Object.seal({get x(){return 1}});", "x", false},
 }
 
